@@ -122,7 +122,12 @@ def isoformat(dt: datetime.date | datetime.time | datetime.timedelta) -> str:
     )
     datepart = "".join(
         f"{p}{s}"
-        for p, s in ((dur.years, "Y"), (dur.months, "M"), (dur.remaining_days, "D"))
+        for p, s in (
+            (dur.years, "Y"),
+            (dur.months, "M"),
+            # `remaining_days` excludes whole weeks - count them back in.
+            (dur.weeks * 7 + dur.remaining_days, "D"),
+        )
         if p
     )
     timepart = "".join(
@@ -139,7 +144,8 @@ def isoformat(dt: datetime.date | datetime.time | datetime.timedelta) -> str:
         )
         if p
     )
-    period = f"P{datepart}T{timepart}"
+    # No dangling "T" designator after a date-only duration.
+    period = f"P{datepart}" if datepart and not timepart else f"P{datepart}T{timepart}"
     return period
 
 
